@@ -181,13 +181,6 @@ Theorem field_radial : forall F (K : Ops F), is_field K -> forall ar ct st cp sp
 Proof. exact (@radial_vect_any). Qed.
 Print Assumptions field_radial.
 
-(* Tmatrix.raw_fields: postfactor rotation and einc = [1,0] cancel *)
-Theorem tmatrix_postfactor : forall F (K : Ops F), is_field K -> forall pf s11 s12 s21 s22 cp sp,
-  add K (mul K cp cp) (mul K sp sp) = one K ->
-  tmat_field_sph K pf ((s11, s12), (s21, s22)) cp sp = (mul K pf s11, opp K (mul K pf s21)).
-Proof. exact (@tmat_postfactor_any). Qed.
-Print Assumptions tmatrix_postfactor.
-
 (* the Q(i) instance executed by the correspondence check computes the same number as the C instance *)
 Theorem scatcoeff_Q_agrees_C : forall D m x n psi psi1 xi xi1,
   ~ (cnorm2 QO m == 0)%Q -> ~ (cnorm2 QO x == 0)%Q ->
